@@ -216,3 +216,93 @@ def jobs(tier="quick", seed=0):
                           replay=make_replay(name, abi, syntax, flags, align, leaf, v), kind="E",
                           func="gtirb_rewriting.abi:%s._create_prologue_and_epilogue" % type(abi).__mro__[1].__name__ if type(abi).__name__.count("_") > 1 else "gtirb_rewriting.abi:%s._create_prologue_and_epilogue" % type(abi).__name__,
                           timeout_ms=30000, max_seconds=1200)
+
+
+# ------------------------------------------------------------------------------------------------ apply-level bounded: several sites
+def several_sites_bounded(tier, seed):
+    """C16 through RewritingContext.apply(): the SAME Patch object inserted at several sites (a non-leaf function first, then a leaf
+    function, and the other way round) -- the frame built around each invocation must fit THAT site: in a leaf function (or outside any
+    function) of an ABI with a red zone nothing may be written inside the red zone; the stack pointer is back where it was."""
+    def run():
+        import logging
+        import capstone
+        from gtirb_rewriting import Patch, RewritingContext, patch_constraints
+        from bounded import scen
+        from pyvc.run import BResult
+        logging.getLogger("gtirb_rewriting").setLevel(logging.CRITICAL)
+        md = capstone.Cs(capstone.CS_ARCH_X86, capstone.CS_MODE_64)
+        md.detail = True
+        br = BResult()
+        br.bound = ("x86-64 ELF module of bounded/scen.py (f calls g; g is a leaf); one Patch object with constraints (clobbers / flags / scratch / align in 6 combinations) inserted into "
+                    "f's call block and into g, and two distinct Patch objects as a control; stack writes of each inserted frame emulated from its capstone disassembly")
+        br.clauses = ["C16/apply/no-write-inside-the-red-zone-of-a-leaf-function-at-any-site", "C16/apply/stack-pointer-restored-at-every-site"]
+
+        def emulate(code):
+            """(lowest offset written relative to the entry stack pointer before any red-zone skip..., final sp offset, red-zone writes)"""
+            sp, rz = 0, []
+            for ins in md.disasm(code, 0):
+                mn, ops = ins.mnemonic, ins.op_str
+                if mn in ("push", "pushfq"):
+                    sp -= 8
+                    if -128 <= sp < 0:
+                        rz.append("%s %s writes [entry sp%+d]" % (mn, ops, sp))
+                elif mn in ("pop", "popfq"):
+                    sp += 8
+                elif mn == "lea" and ops.startswith("rsp, [rsp"):
+                    inner = ops[ops.index("[") + 1:ops.index("]")].replace(" ", "")
+                    sp += int(inner[3:], 16) if len(inner) > 3 else 0
+                elif mn in ("sub", "add") and ops.startswith("rsp, "):
+                    k = int(ops.split(",")[1], 16)
+                    sp += -k if mn == "sub" else k
+                elif mn == "and" and ops.startswith("rsp"):
+                    return None                      # alignment: displacement unknown statically (covered by the E obligations)
+            return sp, rz
+        combos = [dict(clobbers_registers=("rax",)), dict(clobbers_flags=True), dict(clobbers_registers=("rax", "rcx"), clobbers_flags=True),
+                  dict(scratch_registers=2), dict(preserve_caller_saved_registers=True), dict(scratch_registers=1, clobbers_flags=True)]
+        distinct = set()
+        for ci, cons in enumerate(combos):
+            for shared in (True, False):
+                ir, m, bi, blocks, fl = scen.build(scen.Shape("call", True))
+
+                def mk():
+                    @patch_constraints(**cons)
+                    def pat(ctx):
+                        return "nop"
+                    return Patch.from_function(pat)
+                p1 = mk()
+                p2 = p1 if shared else mk()
+                rc = RewritingContext(m, fl)
+                rc.insert_at(blocks[1], 0, p1)          # f: calls g -> not a leaf (lower address: applied first)
+                rc.insert_at(blocks[3], 0, p2)          # g: a leaf
+                br.cases += 1
+                distinct.add((ci, shared))
+                desc = {"constraints": {k: list(v) if isinstance(v, tuple) else v for k, v in cons.items()}, "same Patch object at both sites": shared}
+                with scen.PatchRecorder() as rec:
+                    try:
+                        rc.apply()
+                    except Exception as ex:      # noqa
+                        br.failures.append({"clause": "C16/apply/stack-pointer-restored-at-every-site", "witness": desc, "detail": "%s: %s" % (type(ex).__name__, str(ex)[:100])})
+                        continue
+                for r in rec.records:
+                    leaf = r["block"] is blocks[3]
+                    em = emulate(r["bytes"])
+                    if em is None:
+                        continue
+                    sp, rz = em
+                    if sp != 0:
+                        br.failures.append({"clause": "C16/apply/stack-pointer-restored-at-every-site", "witness": dict(desc, site="g (leaf)" if leaf else "f (not a leaf)"), "detail": "frame leaves sp at entry%+d: %s" % (sp, r["bytes"].hex())})
+                    if leaf and rz:
+                        br.failures.append({"clause": "C16/apply/no-write-inside-the-red-zone-of-a-leaf-function-at-any-site", "witness": dict(desc, site="g (leaf)"), "detail": "; ".join(rz[:2]) + " -- frame " + r["bytes"].hex()})
+                if len(br.samples) < 2:
+                    br.samples.append(desc)
+        br.nontrivial = len(distinct)
+        return br
+    return run
+
+
+_jobs_e = jobs
+
+
+def jobs(tier="quick", seed=0):
+    yield from _jobs_e(tier, seed)
+    yield Job("C16/apply-several-sites-bounded", several_sites_bounded(tier, seed), kind="B", func="gtirb_rewriting.rewriting:RewritingContext._invoke_patch")
